@@ -553,7 +553,7 @@ class Deep:
                 v = self.read(st, a[1])
                 if v[0] == "const" or (v[0] == "variant" and not v[3]):
                     a = ("refto", v)
-                elif a[1] not in self.mut_refs and a[1] in st.heap and v[0] not in ("undef", "unknown"):
+                elif a[1] in st.heap and v[0] not in ("undef", "unknown") and (a[1] not in self.mut_refs or v[0] not in ("variant", "const", "tuple")):
                     a = ("refto", v)
             snap.append(a)
         # an opaque callee may write through the `&mut` references it receives (directly or captured by a closure
